@@ -1,7 +1,7 @@
 SPECIFICATION Spec
 CONSTANTS
   K = 3
-  Variant = "fixed"
+  Variant = "swapfirst"
 INVARIANT C12_NoLoss
 INVARIANT C12_NoDup
 INVARIANT C12_NoDeadlock
